@@ -354,9 +354,40 @@ func checkC02(c C02Case, r *Rec) *Violation {
 
 var propC02 = Prop[C02Case]{
 	ID:    "C02",
-	Rule:  "typed random expression (all variables bound, failures from operators only) x cost map (incl. NaN/Inf/huge/negative) compiled under all 16 optimization subsets, each expressed in several ways (full map, sparse map, Optimizations option, ;;;; directives in 8 spellings (two of them say the opposite first and rely on the later directive winning), the directive over a config that says the opposite, options set on a CopyConfig / ExtendConf copy of a config that says the opposite); oracles: pairwise equal values, R_eager value everywhere, R value without Reordering, identical Dump/DumpTable across the four ways, outcome = R/R_fast on the configuration's own Dump. Whole-run bracket: 30 canary cases x 16 subsets give the same programs and outcomes before the first and after the last case of the shard. (g) for programs with 1..5 bound boolean variables ALL their assignments are run through all 16 compiled programs (every path through the and/or/if structure): result and effects of each = the reference on its own dump, and (a)-(c) hold for every assignment. Non-trivial = at least two of the 16 dumps differ from the unoptimized dump; distinct by source + binding + costs",
+	Rule:  "typed random expression (all variables bound, failures from operators only) x cost map (incl. NaN/Inf/huge/negative) compiled under all 16 optimization subsets, each expressed in several ways (full map, sparse map, Optimizations option, ;;;; directives in 8 spellings (two of them say the opposite first and rely on the later directive winning), the directive over a config that says the opposite, options set on a CopyConfig / ExtendConf copy of a config that says the opposite); oracles: pairwise equal values, R_eager value everywhere, R value without Reordering, identical Dump/DumpTable across the four ways, outcome = R/R_fast on the configuration's own Dump. Whole-run bracket: 30 canary cases x 16 subsets give the same programs and outcomes before the first and after the last case of the shard. (g) for programs with 1..5 bound boolean variables ALL their assignments are run through all 16 compiled programs (every path through the and/or/if structure): result and effects of each = the reference on its own dump, and (a)-(c) hold for every assignment. Sweep: a variable at an end of int64 folded with two constants by one n-ary arithmetic call. Non-trivial = at least two of the 16 dumps differ from the unoptimized dump; distinct by source + binding + costs",
 	Gen:   genC02,
 	Check: checkC02,
+	Sweep: sweepC02,
+}
+
+// sweepC02: one variable folded with two constants by an n-ary arithmetic call,
+// the variable at an end of int64 or at -1 - every configuration returns what left-to-right wrap-around
+// arithmetic returns (a regrouping of the constant operands would not).
+func sweepC02(tier string, shard, shards int, emit func(C02Case)) {
+	ks := []int64{-1, 2, math.MinInt64, 3}
+	xs := []int64{math.MinInt64, math.MaxInt64, -1, math.MinInt64 + 1}
+	n := 0
+	for _, op := range []string{"/", "div", "-", "%", "*", "+"} {
+		for _, k1 := range ks {
+			for _, k2 := range ks {
+				for vpos := 0; vpos < 2; vpos++ {
+					for _, x := range xs {
+						n++
+						if n%shards != shard {
+							continue
+						}
+						kids := []*m.Node{m.Var("i0"), m.Const(k1), m.Const(k2)}
+						if vpos == 1 {
+							kids[0], kids[1] = kids[1], kids[0]
+						}
+						tree := wrapRoot(m.Op(op, kids...)) // (the number itself is the result: a comparison would hide most differences)
+						u := Universe{RegMode: RegGetOrReg, Vars: []VarDecl{{Name: "i0", Ty: m.TInt, Val: m.V{X: x}}}}
+						emit(C02Case{U: u, Tree: tree, Src: m.Render(tree)})
+					}
+				}
+			}
+		}
+	}
 }
 
 // c02Ask: what the 16 configurations make of a case (programs and outcomes), for the whole-run bracket.
